@@ -81,6 +81,7 @@ type Ev struct {
 }
 
 type rec struct {
+	noRep     bool // no repetition query at all for the moment
 	seed      int64
 	htail     bool // log length + newest entries of the hash history instead of all of it
 	sparseRep bool // the repetition count is observed only at every fourth event or so
@@ -141,7 +142,7 @@ func (r *rec) observe(b *board.Board, e *Ev, judged bool) {
 			e.Stale = &v
 		}
 	}
-	if r.obs["rep"] && !(r.sparseRep && r.rng.Intn(4) != 0) {
+	if r.obs["rep"] && !r.noRep && !(r.sparseRep && r.rng.Intn(4) != 0) {
 		v := int(b.Threefold())
 		e.Rep = &v
 	}
@@ -949,6 +950,66 @@ func (r *rec) shuffle(corpus []string, plies int) {
 					plan = append(plan, w3[0], b3[0], move.From(w3[0].To())|move.To(w3[0].From()), move.From(b3[0].To())|move.To(b3[0].From()))
 				}
 			}
+		}
+		// two lines of equal length into the same position, one of which passes through that position on its way:
+		//   a b a' b' a b   (the end position was there at ply 2 already)      - asked for the count - taken back -
+		//   c d c' d' a b   (first time)                                       - asked again, nothing asked in between
+		if forced == 0 && plan == nil && r.rng.Intn(4) == 0 {
+			back := func(m move.Move) move.Move { return move.From(m.To()) | move.To(m.From()) }
+			quietOf := func(avoid move.Move) move.Move {
+				var q []move.Move
+				for _, x := range proj.Playable(b, r.ms) {
+					pc := b.SquaresToPiece[x.From()]
+					if b.SquaresToPiece[x.To()] == NoPiece && pc != Pawn && pc != King && pc != Rook && (avoid == 0 || x.From() != avoid.From()) {
+						q = append(q, x)
+					}
+				}
+				if len(q) == 0 {
+					return 0
+				}
+				return q[r.rng.Intn(len(q))]
+			}
+			try := func(line []move.Move, last bool) bool {
+				var done []played
+				ok := true
+				for i, m := range line {
+					if !contains(proj.Playable(b, r.ms), m) {
+						ok = false
+						break
+					}
+					r.noRep = i != len(line)-1 // asked only at the end of a line
+					done = append(done, played{m, r.make(b, m, true)})
+				}
+				r.noRep = true
+				if !ok || !last {
+					for i := len(done) - 1; i >= 0; i-- {
+						r.undo(b, done[i].m, done[i].rv)
+					}
+				} else {
+					stack = append(stack, done...)
+				}
+				r.noRep = false
+				return ok
+			}
+			wasSparse := r.sparseRep
+			r.sparseRep = false
+			if a := quietOf(0); a != 0 {
+				rv := b.MakeMove(a)
+				bm := quietOf(0)
+				b.UndoMove(a, rv)
+				c := quietOf(a)
+				if bm != 0 && c != 0 {
+					rv = b.MakeMove(c)
+					d := quietOf(bm)
+					b.UndoMove(c, rv)
+					if d != 0 {
+						if try([]move.Move{a, bm, back(a), back(bm), a, bm}, false) {
+							try([]move.Move{c, d, back(c), back(d), a, bm}, true)
+						}
+					}
+				}
+			}
+			r.sparseRep = wasSparse
 		}
 		for ply := 0; ply < plies && !r.full(); ply++ {
 			if ply < len(plan) {
